@@ -6,7 +6,7 @@ HERE = os.path.dirname(os.path.abspath(__file__))
 LEAN = os.path.join(os.path.dirname(HERE), "lean")
 NOT_YET = {
     "C01": ["the hand-unrolled sqlite3 chained reader is modelled by its format-level reader (agreement with the C is sampled by the correspondence, not proved)"],
-    "C04": [],
+    "C04": ["uniqueness-in-length-class / shortest-encoding stated on the decoder for chained, chained-simple and the split families (tagged has tagged_canonical); Elias gamma/delta bit definitions (carried with the Elias model under C02)"],
     "C05": [],
     "C12": [],
 }
